@@ -75,7 +75,13 @@ CLAIMS["C05"] = proof(
     "through the oracle stream; cancellation at every point of a future's life incl. a starved and a notified-but-not-repolled waiter; completed futures kept alive; try_lock; guard drops) in every reachable state with no guard alive "
     "and every woken task re-polled, no polled lock future is pending. From the generic event-ownership invariant (EventFacts.InvB) + path specifications of AcquireSlow::poll_with_strategy (MutexPaths, LockLive: "
     "lock_poll_live / lock_drop_live, stated over any word/event so they are reused for the RwLock's inner mutex) + the word invariant (MutexInv). C05_idle_event: no future alive => lock_ops has no entry. "
-    "C05_no_error: no reachable poll takes an unreachable!() branch or exhausts loop fuel. Schedule half (threads, blocking waiters) not proved: poll-granular histories only; the blocking strategy is pinned by the ties. " + CORR, NOTE)
+    "C05_no_error: no reachable poll takes an unreachable!() branch or exhausts loop fuel. "
+    "Schedule half: asking of the Mutex the question that exposed F5 found a genuine defect (F6: a lock future that acquires through the compare_exchange right after listen() — possible only when the holder unlocks between the future's try_lock and that "
+    "compare_exchange — returned Ready with its fresh listener still registered; kept alive it swallowed the next unlock's notify(1)), reproduced on the real crate by the loom search (loomsearch/mutex_stale_listener), repaired by fix a3c1bed. "
+    "Schedule half PROVED for the repaired code: C05_sched — on the micro-step machine of coq/Sched/MutexEvSched.v (fast path, hot loop, switch to the fair protocol, fair loop, take_mutex, the two-step drop of a starved future, guard drop cut between "
+    "fetch_sub and notify; any number of futures, unlocking and barging threads; any answers of the starvation clock; spurious polls; cancellation) for EVERY schedule a state with the mutex unlocked, nothing in flight and every woken future re-polled has no "
+    "waiting future (invariants: ownership of the entries, word = lock bit + 2 * starved operations, in-flight); C05_sched_prefix_refuted: the machine without the repair loses a wake-up on the F6 schedule; which machine the source is (gen_mutex_bt) is read from the "
+    "generated site table on every run. Blocking waiters parked on a thread are not modelled (the blocking strategy is pinned by the ties). " + CORR, NOTE)
 
 CLAIMS["C10"] = proof(
     "Mutex and Semaphore proved in full for histories: C10_mutex_no_trace — after any history (futures cancelled unpolled, pending, starved, notified-but-not-repolled or completed, in any order), in every reachable state with no guard alive "
